@@ -10,7 +10,7 @@ import FluteModel.MultiRecv
     sess <sid> <ep> <tsi> <seed> <nobj>   define a real Sender packet stream (implementation side only)  -> ok
     new <0|1> <-|T>                  MultiReceiver::new, filtering flag, session timeout (ticks)  -> ok
     add|rm <ep> <tsi>  addall|rmall <ep>  filt <0|1>                                             -> ok
-    push <ep> <tsi> <d|c|x> ...      data / close-session / unparsable packet                     -> ok|err [+key|-key]
+    push <ep> <tsi> <d|c|x> ...      data / close-session / unparsable packet                     -> ok [+key|-key]
     tick                             more than the session timeout elapses                        -> ok
     cleanup                                                                                       -> ok [-key ...] (sorted)
     drop                                                                                          -> ok [-key ...] (sorted)
@@ -203,7 +203,9 @@ def stepA (d : DState) (args : List String) (env : Env) : DState × String :=
       | none => (d, "bad-op")
       | some pkt =>
         let (s', r) := push (actMachine d.timeout) s ep pkt
-        let res := if r = .parseErr then "err" else "ok"
+        -- Ok / Err of a datagram is not part of C18 (dispatched: the opaque Receiver's result; unparsable: C04's)
+        let _ := r
+        let res := "ok"
         ({ d with mr := some s' }, withEvents res ((newEvents s s').map showEvent))
     | _, _, _ => (d, "bad-op")
   | ["tick"] =>
